@@ -410,7 +410,10 @@ def rule_xml_note(ctx):
     repo = ctx.repo
     f = repo.mod(MX).func("_note2musicxml")
     noteci = repo.mod(NOTE).cls("Note")
-    for name, octave in (("C", 4), ("Eb", 3), ("F##", 6), ("Abb", 0), ("B#b", 5)):
+    # every letter with every alteration up to two signs (the names that cross the B/C line included: Cb, Cbb, B#, B##)
+    cases = [("C", 4), ("Eb", 3), ("F##", 6), ("Abb", 0), ("B#b", 5)]
+    cases += [(L + acc, 4) for L in "CDEFGAB" for acc in ("#", "b", "##", "bb") if (L + acc, 4) not in cases] + [("B#", 0), ("Cb", 8)]
+    for name, octave in cases:
         n = AObj(noteci, {"name": name, "octave": octave}, name="n")
         p = explore(xml_interp(repo), lambda it: it.call_function(f, [n], {}))
         ok, why = len(p) == 1 and p[0].kind == "return" and isinstance(p[0].value, dd.ANode), "outcome %s" % [(x.kind, x.value) for x in p]
